@@ -1521,6 +1521,8 @@ class StateEngine(object):
             retry = state.get("Retry")
             if not unrecoverable and retry and isinstance(retry, list):
                 for retrier in retry:
+                    if not isinstance(retrier, dict):
+                        continue
                     """
                     Each Retrier MUST contain a field named “ErrorEquals”
                     whose value MUST be a non-empty array of Strings,
@@ -1539,7 +1541,7 @@ class StateEngine(object):
                     error_type has *any* value and States.TaskFailed is
                     present in the ErrorEquals array then we should match.
                     """
-                    error_equals = retrier.get("ErrorEquals")
+                    error_equals = retrier.get("ErrorEquals") or []
                     if (
                         error_type in error_equals
                         or "States.TaskFailed" in error_equals
@@ -1607,6 +1609,8 @@ class StateEngine(object):
             catch = state.get("Catch")
             if not unrecoverable and not retry_matched and catch and isinstance(catch, list):
                 for catcher in catch:
+                    if not isinstance(catcher, dict):
+                        continue
                     """
                     Each Catcher MUST contain a field named “ErrorEquals”,
                     specified exactly as with the Retrier “ErrorEquals” field,
@@ -1620,7 +1624,7 @@ class StateEngine(object):
                     “ErrorEquals” field, transitions the machine to the state
                     named in the value of the “Next” field.
                     """
-                    error_equals = catcher.get("ErrorEquals")
+                    error_equals = catcher.get("ErrorEquals") or []
                     if (
                         error_type in error_equals
                         or "States.TaskFailed" in error_equals
@@ -3478,6 +3482,17 @@ class StateEngine(object):
         check that state transitions only occur within the correct "States".
         """
         force_full_lookup = "Branch" in context["State"]
+        if (not isinstance(ASL.get("States"), dict) or
+            not isinstance(current_state, str)):
+            message = ("{} has no \"States\" object to look up the state "
+                       "\"{}\" in: Illegal State Machine.").format(
+                        execution_arn, current_state
+                      )
+            self.logger.error(message)
+            handle_error({}, "States.Runtime", message)
+            self.event_dispatcher.acknowledge(id)
+            return
+
         state, current_state_machine, state_path = find_state(
             ASL["States"], current_state, force_full_lookup
         )
@@ -3492,6 +3507,16 @@ class StateEngine(object):
             return
 
         # Determine the ASL state type of the current state.
+        if not isinstance(state, dict) or not isinstance(state.get("Type"), str):
+            message = ("{} state \"{}\" is not an object with a \"Type\": "
+                       "Illegal State Machine.").format(
+                        execution_arn, current_state
+                      )
+            self.logger.error(message)
+            handle_error({}, "States.Runtime", message)
+            self.event_dispatcher.acknowledge(id)
+            return
+
         state_type = state["Type"]
 
         """
